@@ -85,9 +85,12 @@ class SetV:
 
 @dataclass(frozen=True)
 class ObjV:
-    """Some non-None object (truthy) about which nothing else is known."""
+    """Some non-None object about which nothing else is known.  ``truth`` is
+    its truthiness: True for ordinary objects, None when its class defines
+    __bool__ / __len__ (an empty container-like object is falsy)."""
 
     tag: str = "obj"
+    truth: bool | None = True
 
 
 @dataclass(frozen=True)
@@ -131,7 +134,7 @@ def truthy(v) -> bool | None:
     if isinstance(v, SetV):
         return bool(v.items)
     if isinstance(v, ObjV):
-        return True
+        return v.truth
     if isinstance(v, TupleV):
         return bool(v.elts)
     return None
@@ -277,6 +280,18 @@ class Interp:
                         None if a.lo is None or b.lo is None else a.lo + b.lo,
                         None if a.hi is None or b.hi is None else a.hi + b.hi,
                     )
+            if isinstance(e.op, ast.Sub) and isinstance(a, IntV) and isinstance(b, IntV):
+                return IntV(
+                    None if a.lo is None or b.hi is None else a.lo - b.hi,
+                    None if a.hi is None or b.lo is None else a.hi - b.lo,
+                )
+            if isinstance(e.op, ast.Mult) and isinstance(a, IntV) and isinstance(b, IntV):
+                if None not in (a.lo, a.hi, b.lo, b.hi):
+                    ps = [a.lo * b.lo, a.lo * b.hi, a.hi * b.lo, a.hi * b.hi]
+                    return IntV(min(ps), max(ps))
+                if a.lo is not None and b.lo is not None and a.lo >= 0 and b.lo >= 0:
+                    return IntV(a.lo * b.lo, None)
+                return IntV(None, None)
             if isinstance(e.op, ast.Mod) and isinstance(a, StrV):
                 return StrV(a.kind)
             return TOP
@@ -383,6 +398,9 @@ class Interp:
             r = self.call_oracle(c)
             if r is not None:
                 return r
+        rk = f"$ret:{id(c)}"
+        if rk in st:
+            return st[rk]
         if d in ("set", "frozenset", "list", "tuple", "sorted") and len(c.args) <= 1:
             if not c.args:
                 return SetV(frozenset())
@@ -395,6 +413,9 @@ class Interp:
             return self._to_str(self.eval(c.args[0], st))
         if d == "int":
             return IntV(None, None)
+        if d == "float" and len(c.args) == 1:
+            v = self.eval(c.args[0], st)
+            return v if isinstance(v, IntV) else IntV(None, None)
         if d == "len" and c.args:
             v = self.eval(c.args[0], st)
             if isinstance(v, StrV) and v.exact is not None:
@@ -802,8 +823,8 @@ class Interp:
             d = dotted(a.target)
             if d:
                 st = dict(st)
-                if isinstance(a.op, ast.Add):
-                    st[d] = self.eval(ast.BinOp(left=a.target, op=ast.Add(), right=a.value), st)
+                if isinstance(a.op, (ast.Add, ast.Sub, ast.Mult)):
+                    st[d] = self.eval(ast.BinOp(left=a.target, op=a.op, right=a.value), st)
                 else:
                     st[d] = TOP
             return st
@@ -840,16 +861,81 @@ class Interp:
                 if r is not None and r != want:
                     return None
                 return (interp.refine(st, node.ast, want), recs)
+            if node.kind == "for" and label == "T" and isinstance(node.ast, (ast.For, ast.AsyncFor)):
+                # a loop over a provably empty iterable is not entered
+                it = node.ast.iter
+                empty = False
+                if isinstance(it, ast.Call) and dotted(it.func) == "range":
+                    a = [interp.eval(x, st) for x in it.args]
+                    if all(isinstance(v, IntV) and v.lo is not None and v.lo == v.hi for v in a):
+                        try:
+                            empty = len(range(*[v.lo for v in a])) == 0
+                        except (TypeError, ValueError):
+                            empty = False
+                else:
+                    v = interp.eval(it, st)
+                    empty = truthy(v) is False and isinstance(v, (StrV, SetV, TupleV))
+                if empty:
+                    return None
             exprs = watch(node)
             if exprs:
                 recs = recs + ((node, tuple(interp.eval(e, st) for e in exprs), st),)
             if label in ("exc", "raise"):
                 return (st, recs)
+            if node.kind == "stmt" and isinstance(node.ast, ast.Return) and node.stack:
+                # return from an inlined callee: remember the value for the call site
+                enter = g.nodes[node.stack[-1]]
+                rv = interp.eval(node.ast.value, st) if node.ast.value is not None else NoneV()
+                st2 = dict(st)
+                st2[f"$ret:{id(enter.ast)}"] = rv
+                return (st2, recs)
+            if node.kind == "call_return":
+                st2 = dict(st)
+                if f"$ret:{id(node.ast)}" not in st2:
+                    st2[f"$ret:{id(node.ast)}"] = NoneV()  # fell off the end of the callee
+                # leave the callee's scope: drop its locals, restore the caller's
+                saved = st2.pop(f"$saved:{id(node.ast)}", None)
+                if saved is not None:
+                    for nm, old in saved.items():
+                        for k in [k for k in st2 if k == nm or k.startswith(nm + ".")]:
+                            del st2[k]
+                        for k, v in old.items():
+                            st2[k] = v
+                return (st2, recs)
             if node.kind == "call_enter" and label == "call":
                 # bind the inlined callee's parameters to the abstract arguments
                 from .flow import _bindings
 
                 b = _bindings(node)
+                callee = node.extra.get("callee")
+                if callee is not None:
+                    # enter the callee's scope: its parameters and locals shadow
+                    # same-named caller variables until the call returns
+                    local_names = set(callee.params) - {"self", "cls"}
+                    for x in walk(callee.node):
+                        if isinstance(x, ast.Name) and isinstance(x.ctx, ast.Store):
+                            local_names.add(x.id)
+                    saved = {}
+                    st = dict(st)
+                    vals0 = {p: interp.eval(a, st) for p, a in b.items()}
+                    attr_facts = {}
+                    for p, a in b.items():
+                        d = dotted(a)
+                        if d:
+                            attr_facts[p] = {k[len(d):]: vv for k, vv in st.items() if k.startswith(d + ".")}
+                            for k, vv in interp.oracle.items():
+                                if k.startswith(d + "."):
+                                    attr_facts[p].setdefault(k[len(d):], vv)
+                    for nm in local_names:
+                        saved[nm] = {k: v for k, v in st.items() if k == nm or k.startswith(nm + ".")}
+                        for k in saved[nm]:
+                            del st[k]
+                    st[f"$saved:{id(node.ast)}"] = saved
+                    for p, v in vals0.items():
+                        st[p] = v
+                        for suffix, vv in attr_facts.get(p, {}).items():
+                            st[p + suffix] = vv
+                    return (st, recs)
                 if b:
                     st2 = dict(st)
                     vals = {p: interp.eval(a, st) for p, a in b.items()}
